@@ -3,6 +3,7 @@ package main
 import (
 	"fmt"
 	"go/ast"
+	"go/constant"
 	"go/token"
 	"go/types"
 	"os"
@@ -43,14 +44,36 @@ func checkC25(c *Ctx) (string, []string) {
 	c.checkEffects("C25.dagger", K+"History2HistoryDagger", fn["History2HistoryDagger"], eff("History2HistoryDagger"), []string{"store &p0[(len(p0) - 1)].StateRoot ← p1"})
 	{
 		f := fn["History2HistoryDagger"]
-		pass := condEdges(f, func(v ssa.Value) (bool, bool) { return exprStr(v, shapeOpts) == "(0 != len(p0))", true })
-		ok := true
+		var st *ssa.Store
 		allInstrs(f, func(in ssa.Instruction) {
-			if st, isSt := in.(*ssa.Store); isSt && !rootedInLocal(st.Addr) && !guardedBy(f, st, pass) {
-				ok = false
+			if s, isSt := in.(*ssa.Store); isSt && !rootedInLocal(s.Addr) {
+				st = s
 			}
 		})
-		c.Check(ok, "C25.dagger", K+"History2HistoryDagger · non-empty guard", f.Pos(), "store guarded by len(history) != 0", "state-root store not guarded by a non-empty history")
+		bad := ""
+		if st == nil {
+			bad = "no state-root store"
+		} else {
+			for n := int64(0); n <= 3 && bad == ""; n++ {
+				hit := false
+				_, ok := runWithAtoms(f, robustOpts, func(s string) (int64, bool) {
+					if s == "len(p0)" {
+						return n, true
+					}
+					return 0, false
+				}, func(in ssa.Instruction) {
+					if in == ssa.Instruction(st) {
+						hit = true
+					}
+				})
+				if !ok && !hit {
+					bad = "the store is guarded by something other than the length of the history"
+				} else if hit != (n > 0) {
+					bad = fmt.Sprintf("with %d entries the state-root store is executed=%v", n, hit)
+				}
+			}
+		}
+		c.Check(bad == "", "C25.dagger", K+"History2HistoryDagger · non-empty guard", f.Pos(), "store executed exactly when the history is non-empty (|β| = 0..3)", "state-root store not guarded by a non-empty history: "+bad)
 	}
 	c.checkEffects("C25.dagger", K+"STFBetaH2BetaHDagger", fn["STFBetaH2BetaHDagger"], eff("STFBetaH2BetaHDagger"), []string{
 		"call " + K + "History2HistoryDagger(cell(prior.GetBeta(PRIOR)).History, BLOCK.Header.ParentStateRoot)",
@@ -58,9 +81,15 @@ func checkC25(c *Ctx) (string, []string) {
 	})
 
 	c.Rule("C25.new-entry", "the appended entry is (header hash = Blake2b(Encode(block.Header)), state root = zero, reported = MapWorkReportFromEg(block's guarantees), beefy root = super-peak commitment of this block's accumulation outputs); β_B' and β_H' are stored from the same computation", 12)
-	c.checkShapes("C25.new-entry", K+"NewItem", fn["NewItem"], ret("NewItem"), map[string][]string{
-		"ret.HeaderHash": {"p0"}, "ret.BeefyRoot": {"p2"}, "ret.Reported": {"p1"}, "ret.StateRoot": {"nil"},
-	})
+	{
+		got := ret("NewItem")
+		if _, has := got["ret.StateRoot"]; !has {
+			got["ret.StateRoot"] = []string{"nil"} // field left at its zero value
+		}
+		c.checkShapes("C25.new-entry", K+"NewItem", fn["NewItem"], got, map[string][]string{
+			"ret.HeaderHash": {"p0"}, "ret.BeefyRoot": {"p2"}, "ret.Reported": {"p1"}, "ret.StateRoot": {"nil"},
+		})
+	}
 	ser := K + "serLastAccOut(post.GetLastAccOut(POST))"
 	root := K + "lastAccOutRoot(" + ser + "#0)"
 	acm := K + "AppendAndCommitMmr(prior.GetBeta(PRIOR).Mmr, " + root + ")"
@@ -74,39 +103,81 @@ func checkC25(c *Ctx) (string, []string) {
 		"call post.SetBetaH(POST, " + add + ")",
 	})
 
-	c.Rule("C25.append-evict", "AddItem2BetaHPrime: if |β†| < H the result is a fresh slice of |β†|+1 holding a copy of β† and the item last; otherwise a fresh slice of H holding β†[1:] (oldest dropped) and the item at H-1; the input is never written", 6)
-	c.checkEffects("C25.append-evict", K+"AddItem2BetaHPrime", fn["AddItem2BetaHPrime"], eff("AddItem2BetaHPrime"), []string{
-		"copy(make([]types.BlockInfo, (1 + len(p0))), p0)",
-		"copy(make([]types.BlockInfo, " + K + "maxBlocksHistory), p0[1:])",
-		"store &make([]types.BlockInfo, (1 + len(p0)))[len(p0)] ← p1",
-		"store &make([]types.BlockInfo, " + K + "maxBlocksHistory)[(" + K + "maxBlocksHistory - 1)] ← p1",
-	})
+	c.Rule("C25.append-evict", "AddItem2BetaHPrime: if |β†| < H the result is a fresh slice of |β†|+1 holding a copy of β† and the item last; otherwise a fresh slice of H holding β†[1:] (oldest dropped) and the item at H-1; the input is never written", 3)
 	{
 		f := fn["AddItem2BetaHPrime"]
-		below := condEdges(f, func(v ssa.Value) (bool, bool) {
-			return exprStr(v, shapeOpts) == "(len(p0) < "+K+"maxBlocksHistory)", true
-		})
-		full := make([]edge, len(below))
-		for i, e := range below {
-			full[i] = edge{e.from, 1 - e.succ}
+		H := int64(8)
+		if k, ok := c.Obj(typesPkg, "MaxBlocksHistory").(*types.Const); ok {
+			if v, exact := constant.Int64Val(k.Val()); exact {
+				H = v
+			}
 		}
-		okArms := len(below) == 1
-		allInstrs(f, func(in ssa.Instruction) {
-			r, ok := in.(*ssa.Return)
-			if !ok {
-				return
+		bad := ""
+		for n := int64(0); n <= H && bad == ""; n++ {
+			env := intEnv{params: map[ssa.Value]int64{}, lens: map[ssa.Value]int64{f.Params[0]: n}, unknown: map[ssa.Value]bool{}, cells: map[ssa.Value]int64{}, globals: map[string]int64{"maxBlocksHistory": H}, offs: map[ssa.Value]int64{}, bases: map[ssa.Value]ssa.Value{}}
+			type cp struct{ dstLen, lo, hi int64 }
+			var copies []cp
+			var itemIdx []int64
+			var dst ssa.Value
+			evalOK := true
+			env.watch = func(in ssa.Instruction, e intEnv) {
+				switch x := in.(type) {
+				case ssa.CallInstruction:
+					if b, ok := x.Common().Value.(*ssa.Builtin); ok && b.Name() == "copy" {
+						dl, ok1 := lenOfValue(x.Common().Args[0], e, 0)
+						base, lo, hi, ok2 := extentOf(x.Common().Args[1], e, 0)
+						if !ok1 || !ok2 || base != ssa.Value(f.Params[0]) {
+							evalOK = false
+							return
+						}
+						dst = x.Common().Args[0]
+						copies = append(copies, cp{dl, lo, hi})
+					}
+				case *ssa.MakeSlice:
+					if k, ok := evalInt(x.Len, e, 0); ok {
+						e.lens[x] = k
+					}
+				case *ssa.Store:
+					if ia, ok := x.Addr.(*ssa.IndexAddr); ok && x.Val == ssa.Value(f.Params[1]) || ok && abbr(exprStr(x.Val, shapeOpts)) == "p1" {
+						if k, ok := evalInt(ia.Index, e, 0); ok {
+							itemIdx = append(itemIdx, k)
+						} else {
+							evalOK = false
+						}
+					}
+				}
 			}
-			s := abbr(exprStr(retResults(r)[0], shapeOpts))
-			switch s {
-			case "make([]types.BlockInfo, (1 + len(p0)))":
-				okArms = okArms && guardedBy(f, in, below)
-			case "make([]types.BlockInfo, " + K + "maxBlocksHistory)":
-				okArms = okArms && guardedBy(f, in, full)
-			default:
-				okArms = false
+			fuel := 4000
+			env.fuel = &fuel
+			last := walkBlocks(f.Blocks[0], nil, env, func(*ssa.BasicBlock) bool { return false })
+			if last == nil || !evalOK {
+				bad = fmt.Sprintf("the construction is not a function of |β†| and H (evaluation stops at |β†|=%d)", n)
+				break
+			}
+			r, _ := last.Instrs[len(last.Instrs)-1].(*ssa.Return)
+			wantLen, wantLo, wantHi, wantIdx := n+1, int64(0), n, n
+			if n >= H {
+				wantLen, wantLo, wantHi, wantIdx = H, 1, n, H-1
+			}
+			if r == nil || len(copies) != 1 || len(itemIdx) != 1 || stripConv(retResults(r)[0]) != stripConv(dst) {
+				bad = fmt.Sprintf("with |β†|=%d the result is not one fresh slice filled by one copy and one item store", n)
+				break
+			}
+			k := copies[0]
+			copied := min(k.dstLen, k.hi-k.lo)
+			if k.dstLen != wantLen || k.lo != wantLo || copied != min(wantLen, wantHi-wantLo) || itemIdx[0] != wantIdx {
+				bad = fmt.Sprintf("with |β†|=%d (H=%d) the result has %d slots, holds β†[%d:%d] and the item at %d; GP 7.8 gives %d slots, β†[%d:%d] and the item at %d", n, H, k.dstLen, k.lo, k.lo+copied, itemIdx[0], wantLen, wantLo, wantLo+min(wantLen, wantHi-wantLo), wantIdx)
+			}
+		}
+		c.Check(bad == "", "C25.append-evict", K+"AddItem2BetaHPrime · construction", f.Pos(), fmt.Sprintf("|β†| < H: fresh |β†|+1 slots = β† ⌢ item; |β†| = H: fresh H slots = β†[1:] ⌢ item (evaluated for |β†| = 0..%d)", H), bad)
+		// the input is never written
+		wr := ""
+		allInstrs(f, func(in ssa.Instruction) {
+			if st, ok := in.(*ssa.Store); ok && !rootedInLocal(st.Addr) {
+				wr = abbr(exprStr(st.Addr, shapeOpts))
 			}
 		})
-		c.Check(okArms, "C25.append-evict", K+"AddItem2BetaHPrime · arms", f.Pos(), "grow arm iff len < H, evict arm otherwise", "the grow/evict arms are not selected by len(history) < H (conditions: "+strings.Join(condShapes(f), " ; ")+")")
+		c.Check(wr == "", "C25.append-evict", K+"AddItem2BetaHPrime · input untouched", f.Pos(), "no store outside the fresh slice", "stores through "+wr)
 		// maxBlocksHistory is the protocol constant and is never reassigned
 		g := c.Obj(rhPkg, "maxBlocksHistory")
 		writes := 0
@@ -143,10 +214,7 @@ func checkC25(c *Ctx) (string, []string) {
 	c.checkShapes("C25.reported-sorted", K+"MapWorkReportFromEg · entry", fn["MapWorkReportFromEg"], literalStores(fn["MapWorkReportFromEg"], "types.ReportedWorkPackage"), map[string][]string{
 		"Hash": {"p0[*].Report.PackageSpec.Hash"}, "ExportsRoot": {"p0[*].Report.PackageSpec.ExportsRoot"},
 	})
-	if fd, p := c.FuncDecl(rhPkg, "MapWorkReportFromEg"); fd != nil {
-		ok, why := returnsSortedBy(p, fd, "Hash")
-		c.Check(ok, "C25.reported-sorted", K+"MapWorkReportFromEg · sort", fd.Pos(), "returned slice sorted by Hash bytes immediately before return", why)
-	}
+	c25Sorted(c, fn["MapWorkReportFromEg"])
 
 	c.Rule("C25.beefy", "the commitment is SuperPeak(AppendOne(MMR from prior peaks with Keccak, &root)) of the same appended peak list that is stored as β_B'; root = Mb(serialised θ', Keccak); serialisation encodes every element of θ' in order", 5)
 	m := "phi(mmr.NewMMR(hash.KeccakHash) | mmr.NewMMRFromPeaks(p0.Peaks, hash.KeccakHash))"
@@ -156,9 +224,7 @@ func checkC25(c *Ctx) (string, []string) {
 		"ret#1":       {"(*mmr.MMR).SuperPeak(" + m + ", " + ap + ")"},
 	})
 	c.checkShapes("C25.beefy", K+"lastAccOutRoot", fn["lastAccOutRoot"], ret("lastAccOutRoot"), map[string][]string{"ret": {"merkle_tree.Mb(p0, hash.KeccakHash)"}})
-	c.checkShapes("C25.beefy", K+"serLastAccOut", fn["serLastAccOut"], ret("serLastAccOut"), map[string][]string{
-		"ret#0": {"nil", "⊕(make([]types.ByteSequence, 0); [(*types.Encoder).Encode(types.NewEncoder(), &p0[*])#0][:])"},
-	})
+	c.requireSet("C25.beefy", K+"serLastAccOut", fn["serLastAccOut"].Pos(), "serLastAccOut returns", normEachAll(abbrMap(returnShapesO(fn["serLastAccOut"], robustOpts))["ret#0"]), []string{"each[(*types.Encoder).Encode(types.NewEncoder(), &p0[*])#0]", "nil"})
 	{
 		f := fn["AppendAndCommitMmr"]
 		empty := condEdges(f, func(v ssa.Value) (bool, bool) { return exprStr(v, shapeOpts) == "(0 == len(p0.Peaks))", true })
@@ -231,4 +297,75 @@ func returnsSortedBy(p *packages.Package, fd *ast.FuncDecl, field string) (bool,
 		return false, "comparator compares " + types.ExprString(cc.Args[0]) + " with " + types.ExprString(cc.Args[1]) + ", expected " + want(params[0]) + " with " + want(params[1])
 	}
 	return true, ""
+}
+
+// c25Sorted: the returned list is sorted by Hash bytes on every path on which it has more than one entry.
+func c25Sorted(c *Ctx, f *ssa.Function) {
+	K := "internal/recent_history."
+	o := robustOpts
+	var sortCall *ssa.Call
+	allInstrs(f, func(in ssa.Instruction) {
+		if call, ok := in.(*ssa.Call); ok && call.Call.StaticCallee() != nil {
+			switch n := call.Call.StaticCallee().String(); {
+			case n == "sort.Slice" || n == "sort.SliceStable" || strings.HasPrefix(n, "slices.SortFunc") || strings.HasPrefix(n, "slices.SortStableFunc"):
+				sortCall = call
+			}
+		}
+	})
+	if sortCall == nil {
+		c.Bad("C25.reported-sorted", K+"MapWorkReportFromEg · sort", f.Pos(), "the reported packages are not sorted")
+		return
+	}
+	// comparator
+	var cmp *ssa.Function
+	switch x := stripConv(sortCall.Call.Args[1]).(type) {
+	case *ssa.MakeClosure:
+		cmp, _ = x.Fn.(*ssa.Function)
+	case *ssa.Function:
+		cmp = x
+	}
+	okCmp, shape := false, ""
+	if cmp != nil {
+		rs := abbrMap(returnShapesO(cmp, o))["ret"]
+		if len(rs) == 1 {
+			shape = rs[0]
+			for _, lst := range []string{"*fv0", "fv0"} {
+				if shape == "(bytes.Compare("+lst+"[p0].Hash[:], "+lst+"[p1].Hash[:]) < 0)" {
+					okCmp = true
+				}
+			}
+			if shape == "bytes.Compare(p0.Hash[:], p1.Hash[:])" {
+				okCmp = true
+			}
+		}
+	}
+	c.Check(okCmp, "C25.reported-sorted", K+"MapWorkReportFromEg · comparator", sortCall.Pos(), "orders by bytes.Compare of the Hash fields, ascending", "the comparator is "+shape+", not ascending bytes.Compare of the two entries' Hash")
+	// the sorted list is the returned one, and the sort runs whenever there is more than one entry
+	sorted := abbr(exprStr(sortCall.Call.Args[0], o))
+	okRet := true
+	allInstrs(f, func(in ssa.Instruction) {
+		if r, ok := in.(*ssa.Return); ok && len(r.Results) == 1 && abbr(exprStr(r.Results[0], o)) != sorted {
+			okRet = false
+		}
+	})
+	bad := ""
+	for n := int64(0); n <= 3 && bad == ""; n++ {
+		hit := false
+		_, ok := runWithAtoms(f, o, func(s string) (int64, bool) {
+			if s == "len(p0)" || (strings.HasPrefix(s, "len(") && strings.Contains(s, "make([]types.ReportedWorkPackage")) {
+				return n, true
+			}
+			return 0, false
+		}, func(in ssa.Instruction) {
+			if in == ssa.Instruction(sortCall) {
+				hit = true
+			}
+		})
+		if !ok && !hit {
+			bad = "the sort is guarded by something other than the number of entries"
+		} else if n >= 2 && !hit {
+			bad = fmt.Sprintf("with %d entries the list is returned unsorted", n)
+		}
+	}
+	c.Check(okRet && bad == "", "C25.reported-sorted", K+"MapWorkReportFromEg · sort", sortCall.Pos(), "the returned list is sorted whenever it has two or more entries", "the returned list is not the sorted one, or "+bad)
 }
